@@ -259,7 +259,7 @@ static inline size_t count(const std::vector<tag_t>& level, tag_t tag)
         case tag_t::SOURCE: str << "/source"; break;
         case tag_t::TARGET: str << "/target"; break;
         case tag_t::NAIL: str << "/nail[" << count(level, tag_t::NAIL) << "]"; break;
-        case tag_t::LSC: str << "/lscTemplate[" << count(level, tag_t::LSC) << "]"; break;
+        case tag_t::LSC: str << "/lsc[" << count(level, tag_t::LSC) << "]"; break;
         case tag_t::TYPE: str << "/type"; break;
         case tag_t::MODE: str << "/mode"; break;
         case tag_t::YLOCCOORD: str << "/ylocoord[" << count(level, tag_t::YLOCCOORD) << "]"; break;
